@@ -842,7 +842,8 @@ structure Sig where
   params : List (Nat × Option Nat)
   /-- the `**kwargs` parameter (`KeywordArgument`) -/
   kwargName : Option Nat
-  /-- `self` of a method / `cls` of a class method: dropped from the table when it comes first and is not documented -/
+  /-- `self` of a method / `cls` of a class method: dropped from the table when it comes first, has no description
+  and no type from the docstring -/
   selfName : Option Nat
   deriving Repr
 
@@ -898,7 +899,9 @@ def resolveLoop (s : Sig) : List (Nat × Option PType) → Nat → List (Nat × 
       let r := resolveLoop s rest (index + 1) (params.filter (·.1 != name))
       ({ d with type := pt.map (·.text), origin := pt.map (·.origin) } :: r.1, r.2.1, r.2.2)
     | none =>
-      if index == 0 && s.selfName == some name then resolveLoop s rest (index + 1) params
+      -- (19b8897) a leading self / cls is dropped only when its type does not come from the docstring
+      if index == 0 && (pt.isNone || pt.map (·.origin) != some .doc) && s.selfName == some name then
+        resolveLoop s rest (index + 1) params
       else
         let r := resolveLoop s rest (index + 1) params
         (⟨name, none, false, pt.map (·.text), pt.map (·.origin)⟩ :: r.1, r.2.1, r.2.2 || pt.isSome)
@@ -926,6 +929,29 @@ def rows (s : Sig) (fh : FH) : List Desc :=
   if ds.any Desc.isDocumented then ds else []
 
 def run (s : Sig) (es : List Event) : FH := es.foldl step (init s)
+
+/-! ### before 19b8897 (kept for the historical counterexample): the leading `self` / `cls` was dropped whenever it
+had no description, also when its type came from the docstring -/
+
+def resolveLoopOld (s : Sig) : List (Nat × Option PType) → Nat → List (Nat × Desc) → List Desc × List (Nat × Desc) × Bool
+  | [], _, params => ([], params, false)
+  | (name, pt) :: rest, index, params =>
+    match params.lookup name with
+    | some d =>
+      let r := resolveLoopOld s rest (index + 1) (params.filter (·.1 != name))
+      ({ d with type := pt.map (·.text), origin := pt.map (·.origin) } :: r.1, r.2.1, r.2.2)
+    | none =>
+      if index == 0 && s.selfName == some name then resolveLoopOld s rest (index + 1) params
+      else
+        let r := resolveLoopOld s rest (index + 1) params
+        (⟨name, none, false, pt.map (·.text), pt.map (·.origin)⟩ :: r.1, r.2.1, r.2.2 || pt.isSome)
+
+/-- `rows` with the old loop (the `**kwargs` step is irrelevant for the counterexample and left out) -/
+def rowsOld (s : Sig) (fh : FH) : List Desc :=
+  let params := paramsDict fh.descs
+  let r := resolveLoopOld s fh.types 0 params
+  let descs := if !params.isEmpty || r.2.2 then r.1 ++ r.2.1.map (·.2) else fh.descs
+  if descs.any Desc.isDocumented then descs else []
 
 end Params
 
